@@ -60,7 +60,21 @@ func OSFS(dir string, n int) hackpadfs.FS {
 		must(err)
 		fs = sub
 	}
+	GuardOSRoot(fs, dir)
 	return fs
+}
+
+// GuardOSRoot panics (a violation with the case's history) if an os.FS is not rooted where it must be: operations through
+// a mis-rooted os.FS would hit the real file system outside the scratch directory.
+func GuardOSRoot(fs hackpadfs.FS, wantDir string) {
+	o, ok := fs.(*hos.FS)
+	if !ok {
+		return
+	}
+	got, err := o.ToOSPath(".")
+	if err != nil || strings.TrimSuffix(got, "/") != strings.TrimSuffix(wantDir, "/") {
+		panic("os.FS root escaped: ToOSPath(\".\") = " + got + " (want " + wantDir + ")")
+	}
 }
 
 // New builds a mutable subject of the given kind.
